@@ -39,7 +39,7 @@ def injected(rng, tier):
 
 
 def run(tier, seed, replay):
-    kws = [dict(sessions=True), dict(sessions=True, events=True), dict(sessions=True, nclients=3, track=True)]
+    kws = [dict(sessions=True), dict(sessions=True, events=True), dict(sessions=True, nclients=3, track=True), dict(sessions=True, auth="proto", nclients=2, events=True)]
     return sim_check("C09", tier, seed, kws, n_quick=120, n_thorough=12000, oracle_props={"C09", "C01", "C02", "C03"},
                      custom_scripts=injected,
                      rule_extra=", plus crash-point enumeration: a disconnect/reconnect or a server stop/start injected at every frame boundary of base scenarios, reconnect after one frame",
